@@ -33,7 +33,7 @@ CHECKS = {
              'uneven column where the pre-repair code provably did not (exact rational witnesses). Dense = cumulative-sum '
              'geopotential for every level set comes from C13. Dense H = cumulative-sum H is proved for every layer count, every level '
              'set without a zero thickness, every reference profile and column (and shown false with a zero thickness); the pre-repair '
-             'form is proved correct exactly for equidistant layers; hence the resolvent identity holds with the cumulative-sum '
+             'form is proved correct for every equidistant level set and fails on an uneven witness; hence the resolvent identity holds with the cumulative-sum '
              'products for split / stacked / block-wise; also the right-inverse direction, linearity of implicit_terms and the '
              'time-reversed solve. Every model operation is compared with the real code (float64, 1e-9) '
              'on random uneven level sets; the resolvent identity is also evaluated on the real code for every method pair.',
@@ -46,7 +46,7 @@ CHECKS = {
         text='Machine-checked proof for any field, any module of states, arbitrary F, linear G with a resolvent, any stage count and '
              'any dt: reductions to the explicit / implicit parent method; low-storage recursion = Butcher form; scalar amplification '
              'functions and their Taylor match to design order (Euler 1; CN-RK2, RK3-CN, SIL3, centred leapfrog 2; RK3/RK4/SIL3 '
-             '3/4/3 for G=0 linear F) on the coefficients regenerated from the source; rooted-tree order conditions; A-stability '
+             '3/4/3 for G=0 linear F) on the coefficients regenerated from the source; rooted-tree order conditions (RK4: all Taylor / tree / coupling residuals within 1e-12, because the source coefficients are 13-digit decimals); A-stability '
              'over C for every dt >= 0, Re mu <= 0 (any low-storage scheme with non-decreasing alpha, SIL3 quartic inequality, leapfrog '
              'alpha >= 1/2); length validation accepts exactly the consistent triples (negative witness for the old chained !=). '
              'Two thirds of the correspondence cases are compared by exact rational equality. Butcher\'s theorem itself is not formalised.',
@@ -55,25 +55,25 @@ CHECKS = {
     'C15': dict(
         technique='Lean 4 theorems over the reals (Real.exp) about an executable model of the filters and of numpy broadcasting on shape '
                   'lists, tied to the code by differential correspondence',
-        text='Machine-checked proof: exponential and diffusion factors lie in (0,1], equal 1 at l=0, are antitone in l and depend on l only; '
+        text='Machine-checked proof over the reals (in float64 the factor underflows to 0 for attenuations above ~745), for attenuation, scale, dt/tau >= 0, 0 <= cutoff < 1, natural-number orders, diffusion order >= 1, radius != 0: exponential and diffusion factors lie in (0,1], equal 1 at l=0, are antitone in l and depend on l only; '
              'two half steps = one full step for all step filters; array-valued strengths act slice-wise; Robert-Asselin leaves the '
-             'newest level and linear-in-time sequences unchanged and is a convex combination for r <= 1/2; _preserves_shape holds iff '
-             'shapes are broadcast-compatible and broadcast to the leaf shape, so scalars/clocks/unrelated leaves are untouched; '
+             'newest level and linear-in-time sequences unchanged and is a convex combination for 0 <= r <= 1/2; _preserves_shape holds iff '
+             'shapes are broadcast-compatible and broadcast to the leaf shape, so scalars, clocks and every leaf whose trailing axes do not broadcast to the spectrum\'s are untouched (a leaf whose last axis has the spectral length L is rescaled, by design); '
              'the diffusion step normaliser is positive on padded layouts (negative witnesses for both repaired defects).',
         note=TB + 'exp is external to the executable model (Float.exp); proofs use Real.exp. Side conditions lmax>0, cutoff<1, tau!=0 are explicit.',
         design='6/C15'),
     'C18': dict(
         technique='Lean 4 theorems about an executable model of scales.Scale (exponent-vector homomorphism) and of the time conversions '
                   'with an explicit rounding parameter fl (instantiated by IEEE round-to-nearest-even to 53 bits), tied to the code by '
-                  'bit-exact differential correspondence on doubles',
+                  'bit-exact differential correspondence on doubles for the timedelta path and 1e-9 correspondence for factors, conversions, datetimes and orbital phases',
         text='Machine-checked proof: the scaling factor is a monoid homomorphism from dimension vectors (factor_add / zsmul / neg, defined '
-             'exactly on covered vectors, ValueError otherwise); dimensionalize and nondimensionalize are mutually inverse, independent of '
+             'exactly on covered vectors, ValueError otherwise); for scales with non-zero base scales (ScaleOK; the code accepts a zero scale) and units with non-zero conversion factor, dimensionalize and nondimensionalize are mutually inverse, independent of '
              'the unit of expression, and respect products, quotients, integer powers; Scale() accepts exactly one scale per base dimension; '
              'for every rounding function with relative error <= 2^-53 per operation (and exact on integers < 2^53; the IEEE model fl53 is '
-             'proved to satisfy it), every time scale T != 0 and every whole number of seconds |s| <= 1e9, both the scalar and the array path '
+             'proved to satisfy it), every time scale T != 0 (no overflow / underflow of s/T) and every whole number of seconds |s| <= 1e9, both the scalar and the array path '
              'of dimensionalize_timedelta64 return s (negative witness on the real doubles: the pre-repair truncation turns 27 s into 26 s); '
-             'datetime <-> model time recovers every minute stamp for |minutes| <= 1e12; phase reduction lands in [0, period), is congruent, '
-             'periodic, unique and idempotent; orbital phases lie in [0, 2 pi); day-of-year <= days-in-year. The model is run bit-for-bit '
+             'datetime <-> model time recovers every minute stamp for |minutes| <= 1e12; over the reals phase reduction lands in [0, period), is congruent, '
+             'periodic, unique and idempotent and orbital phases lie in [0, 2 pi) (in float64 the reduced phase of a tiny negative time is fl(2 pi): the probe accepts [0, 2 pi] up to 2 ulp and counts such cases); day-of-year <= days-in-year. The model is run bit-for-bit '
              'against the code (timedelta path on every whole second 0..1e5 in quick) and the rounding hypothesis is sampled on the real doubles.',
         note=TB + 'Assumed: each double operation of the conversions rounds with relative error <= 2^-53 (sampled on every run). pint unit registry is external (factor table compared). Offset units (degC) excluded by construction.',
         design='6/C18'),
@@ -86,8 +86,8 @@ CHECKS = {
              'normalised flux in [0,1]; invariance under integer numbers of turns of the orbital phase, synodic phase and longitude, and '
              'flux(t) = flux at the unwrapped phases; the boundary-layer ramp is in [0,1] and zero above sigma_b, so kv >= 0 and kv = 0 there; '
              'kt is a convex combination of ka, ks (>= 0, = ka above sigma_b); T_eq >= T_min; the surface-pressure tendency is identically zero; '
-             'the drag on (vorticity, divergence) equals -kv times them (given that to_modal/curl/div are homogeneous and the wind round trip '
-             'holds: hypotheses sampled on the real grid) and is dissipative; temperature relaxes toward T_eq at rate kt. The admissibility '
+             'for states whose spare top total wavenumber is clipped the drag on (vorticity, divergence) equals -kv times them (given that to_modal/curl/div are homogeneous and the wind round trip '
+             'holds: hypotheses sampled on the real pole-free grids on such states; on unclipped states the real code deviates by O(1) in the top wavenumber) and is dissipative; temperature relaxes toward T_eq at rate kt. The admissibility '
              'hypotheses (0 <= dS < S0, harmonics 2,1,1, 0 < sigma_b < 1, 0 <= ka <= ks, ...) are certificates on the constants regenerated '
              'from the source. Global mean = S/4 is a quadrature statement and is a labelled test only.',
         note=TB + 'Translator harness/gen/consts_c20.py (reads module constants and dataclass defaults). sin/cos/exp/log are external to the executable model (libm at run time, Real.* in proofs).',
@@ -98,10 +98,9 @@ CHECKS = {
                   'differential correspondence with step functions drawn from a small DSL',
         text='Machine-checked proof for every step function, state type and split: step_with_filters folds the filters left to right '
              'with the pre-step state as first argument; repeated fn n = fn^[n]; trajectory_from_step returns frame k = post(f^[(k or k+1)*inner] x), '
-             'final carry f^[outer*inner] x, for every (outer, inner, start_with_input), and any (outer, inner) trajectory is the sub-sampling of the '
+             'final carry f^[outer*inner] x, for every (outer, inner, start_with_input), and for inner >= 1 any (outer, inner) trajectory is the sub-sampling of the '
              '(outer*inner, 1) one; nested_checkpoint_scan equals the flat scan for every admissible factorisation (arrays and pytrees), any two '
-             'factorisations agree, and the accepted calls are characterised exactly (length mismatch ValueError, reshape mismatch TypeError, empty '
-             'lengths IndexError, zero outer length ValueError: matching the real error kinds); accumulate_repeated = sum_k w_k step^[k+1]; the DFI '
+             'factorisations agree, and, for scan bodies with at least one output leaf, the accepted calls are characterised exactly (length mismatch ValueError, reshape mismatch TypeError, zero outer length ValueError: matching the real error kinds; empty nested_lengths: IndexError on a one-element input, shown by example); accumulate_repeated = sum_k w_k step^[k+1]; the DFI '
              'weights are normalised, Lanczos weights are >= 0 with non-zero total for c >= T > 0, and digital_filter_initialization returns every '
              'state that is steady for the forward and the time-reversed filtered steps; TimeReversedImExODE is an involution. Correspondence: '
              'every ordered factorisation of every length <= 24 (quick) / <= 360 (thorough), all 5x5x2 small trajectory splits, malformed nestings.',
@@ -113,11 +112,10 @@ CHECKS = {
                   'nearest-neighbour weights, tied to the code by differential correspondence on adversarial queries (nodes, midpoints, +-1 ulp, ends, far outside)',
         text='Machine-checked proof for node sets of any size (spacing above the 2^-104 guard of jnp.interp), arbitrary data and queries: interp returns '
              'node values at nodes, is a convex combination of the two neighbours inside (hence bounded by them), constant outside, equal to the '
-             'reference piecewise-linear interpolant; the dot-product (TPU) variant equals the default variant for every query with >= 2 nodes '
-             '(the degenerate one-node case, where the two paths differ, is characterised by a witness); interpolation and linear extrapolation are exact on affine data; '
+             'reference piecewise-linear interpolant; the dot-product (TPU) variant equals the default variant for every query and every node count >= 1 (negative witness for the pre-repair one-node defect; the repair is proved behaviour-preserving for >= 2 nodes); interpolation (>= 1 node) and linear / safe extrapolation (>= 2 nodes: with one node linear_interp_with_linear_extrap returns 0, characterised) are exact on affine data; '
              'safe extrapolation = linear within the allowed end cells and none beyond; sigma->pressure->sigma and hybrid->sigma are the identity / exact on affine columns; '
              'get_surface_pressure returns the root of the piecewise-linear relative height; bilinear weights reproduce constants and are the identity between equal grids; '
-             'nearest neighbour of a node of the same grid is itself (haversine strictly positive elsewhere). Validation (increasing nodes) is characterised exactly.',
+             'nearest neighbour of a node of the same grid is itself for distinct nodes strictly inside the poles (haversine strictly positive elsewhere; pole rows, where all longitudes coincide, are excluded). Validation (increasing nodes) is characterised exactly.',
         note=TB + 'sklearn BallTree is external (nearest is compared against a brute-force haversine argmin); NaN and denormal queries are outside the model (XLA flushes denormals).',
         design='6/C17'),
     'C16': dict(
@@ -125,17 +123,17 @@ CHECKS = {
                   'about an executable model of the conservative latitude / longitude / vertical weights and of the NaN bookkeeping, tied to the code by differential correspondence',
         text='Machine-checked proof for coordinate vectors of any length and fields of any size: overlaps are >= 0, row sums equal the target cell size and column sums the source cell size for any two partitions '
              'of the same interval, hence normalised weights are non-negative with rows summing to one, constants are reproduced, outputs stay within [min,max] of the overlapping inputs and '
-             'the area-weighted integral is conserved (latitude with g = sin, vertical sigma layers, hybrid->sigma, and the periodic longitude case via _align_phase_with under an explicit cell-width condition; '
-             'the precondition stated in the code is shown insufficient by a witness); the horizontal regridder conserves the double integral; NaN logic: skipna=True gives NaN iff all overlapping inputs are NaN, '
+             'the area-weighted integral is conserved (latitude with g = sin, vertical sigma layers, hybrid->sigma, and the periodic longitude case via _align_phase_with for point lists in [0, P), increasing, at least two per grid, with source + target cell width <= P/2 (i.e. 1/n_s + 1/n_t <= 1/2 for equispaced grids); '
+             'the precondition stated in the code is insufficient: witness = 3 -> 4 longitudes, where conservation fails on the real code too); the horizontal regridder conserves the double integral; NaN logic: skipna=True gives NaN iff all overlapping inputs are NaN, '
              'skipna=False gives NaN iff the non-null weight fraction is not within rtol 1e-3 of 1 (sliver witness = the recorded known finding).',
         note=TB + 'Known finding (committed in known_findings.json): skipna=False does not propagate NaN through overlaps below 0.1 % of a cell.',
         design='6/C16'),
     'C19': dict(
         technique='Lean 4 theorems (structural induction over nested dictionaries with keys as character lists; list lemmas for pytrees and arrays) about an executable model of '
                   'pytree_utils, the spectral up/down-sampling of coordinate_systems and the shape->dims inference of xarray_utils, tied to the code by differential correspondence and real xarray / NetCDF-attribute round trips',
-        text='Machine-checked proof for every nested dictionary whose keys avoid the separator (empty keys and empty branches allowed): sep.join/split are inverse, flatten_dict succeeds exactly on separator-free dictionaries and '
+        text='Machine-checked proof for one-character separators and every nested dictionary whose keys avoid the separator (empty keys and empty branches allowed): sep.join/split are inverse, flatten_dict succeeds exactly on separator-free dictionaries and '
              'unflatten(flatten d) == d in the sense of Python == (negative witnesses for the three repaired defects of the pre-fix code); replace_with_matching_or_default preserves structure; pack/unpack, stack/unstack, '
-             'split/concat, split_axis are mutually inverse for every list of leaf shapes; downsample(upsample x) = x and the up-sampled coefficients describe the same series; shape->dims inference returns the intended names whenever the shape table has no collision, '
+             'split/concat, split_axis are mutually inverse whenever the forward operation succeeds (any number of leaves, any leaf sizes); downsample(upsample x) = x and the up-sampled coefficients describe the same series for any prefix-stable basis (prefix stability of the real bases: C01 for Legendre, probed for the rest); shape->dims inference returns the intended names whenever the shape table has no collision, '
              'and the collisions are characterised (modal = nodal shape; layers = 1: the recorded known finding). Real round trips (asdict/coordinate_system_from_attrs, data_to_xarray/xarray_to_*) are bit-identical on random coordinate systems.',
         note=TB + 'xarray / pandas / NetCDF attribute encoding are external (exercised, not modelled). Known finding: data_to_xarray rejects 3-D nodal data when layers == 1.',
         design='6/C19'),
@@ -155,8 +153,8 @@ CHECKS = {
         text='Machine-checked proof for every basis of consistent shape, every size and every spectral field: analysis(synth x) is the action of the separable Gram tensor; an entrywise eps-identity Gram tensor on the resolved block '
              'gives an eps*|x|_1 round trip for every field supported there; soundness of the exact Gram check that the certificates evaluate, so that for each certified grid (both implementations, gauss / equiangular / with poles, offsets, radii, padding) '
              'the round-trip bound holds for ALL fields in exact arithmetic on the float constants the code computed; structural zeros of the Legendre table for l < m at every size (entries outside the triangle neither influence nor appear); '
-             'integral of a synthesised field = r^2 * (column integrals) and the (0,0) normalisation against 4 pi on the generated constants; fast layout with padding. '
-             'PARTIAL (named): the quantifier over grid configurations is certified on small grids (M <= 4 quick / <= 10 thorough) and sampled numerically on T21..T106 / TL31..TL127 (Gram within 1e-10 on the block the spacing rule says is resolved); '
+             'integral of a synthesised field = r^2 * (column integrals) and the (0,0) normalisation |b0^2 * 4 pi - 1| <= 1e-6 on the generated constants; fast layout with padding. '
+             'PARTIAL (named): the quantifier over grid configurations is certified on small grids (M <= 4 quick / <= 10 thorough) and sampled numerically on T21, TL31, TL47 (quick) / T21..T106, TL31..TL127 (thorough) (Gram within 1e-10 on the block the spacing rule says is resolved); '
              'Gauss-Legendre exactness and Legendre orthogonality are not in the installed Mathlib.',
         note=TB + 'Translator harness/gen/shcert.py. scipy roots_legendre / numpy linalg.solve (quadrature nodes and weights) are external: their output is what the certificates check. sqrt/sin/cos external to the executable model.',
         design='6/C01'),
@@ -174,27 +172,27 @@ CHECKS = {
         technique='Lean 4 theorems about an executable abstract spectral model (Dino/Dynamics.lean: horizontal operations as data, their laws as named hypotheses) of the four primitive-equation classes, '
                   'tied to the code by differential correspondence of the column physics and of full explicit/implicit terms through a matrix-operator instance; the laws are validated on the real Grid on every run; two-profile differential on the real classes',
         text='Machine-checked proof for every level set, reference profile and kappa: the implicit temperature weights H applied to a divergence column equal the explicit adiabatic + vertical-advection formulas evaluated on the reference profile (the two halves of the split are the same discretisation), '
-             'H is additive in the profile; for the dry and the time-carrying classes, for any two reference profiles and states with the same absolute temperature, explicit + implicit tendencies are identical, from linearity and the named discrete-calculus laws (round trip, div grad = laplacian, laplacian kills the mean, clip laws). '
-             'for the moist class the same holds given additionally the product-rule laws (div / curl of q*grad p through the nodal product) and invertibility of 1 + (cp_v/cp - 1) q (T4.3); '
+             'H is additive in the profile; for the dry and the time-carrying classes, for any two reference profiles and states with the same absolute temperature, explicit + implicit tendencies are identical, for admissible states (vorticity, divergence, ln ps clipped; lap invlap delta = delta; >= 1 layer), from linearity and the named discrete-calculus laws on the masked coefficient space (round trip, curl grad = 0, div grad = laplacian, div(uv(zeta, delta)) = delta, to_nodal(1) = 1, laplacian kills the mean, clip laws); '
+             'for the moist class (humidity clipped like the state, R != 0) the same holds given additionally the product-rule laws (div / curl of q*grad p through the nodal product) and invertibility of 1 + (cp_v/cp - 1) q (T4.3); '
              'for the cloud class the difference of the two totals is proved to be exactly R (T1 - T2) clip((curl|div)_cos_lat((q_l+q_i) sec^2 cos_lat_grad ln ps)) in vorticity / divergence and zero elsewhere (T4.4), with invariance when q_l = q_i = 0 and a concrete witness that the dependence is non-zero: '
              'this is the recorded known finding, and the check compares the measured difference of the real class with the closed form (1e-9) so that any other T_ref dependence is still a violation. '
              'The product-rule laws are validated on quadratic and cubic grids on every run and are asserted to fail on linear grids (known finding: moist classes on linear grids, aliasing level). include_vertical_advection=False is not claimed.',
-        note=TB + 'Horizontal operators are abstract in the theorems; their laws are hypotheses validated numerically (quadratic and cubic grids) on every run.',
+        note=TB + 'Horizontal operators are abstract in the theorems; the carrier of modal fields is to be read as the space of MASKED coefficient arrays (closed under every operation: validated each run); their laws are hypotheses validated numerically on masked inputs (quadratic and cubic grids) on every run. Both sides use the same totalised 1/dsigma, so only 2 != 0 is needed as an arithmetic side condition.',
         design='6/C04'),
     'C07': dict(
         technique='Lean 4 theorems about an executable model of the hand-written collective schedules (_allgather_matmul_twoway, _matmul_reducescatter_twoway, _parallel_dot_cumsum) and of the padding / stacking / frequency-offset bookkeeping, '
                   'tied to the code by a schedule trace extracted from the real shard_map code on 8 virtual CPU devices, model correspondence, and a sharded-vs-unsharded differential on every (z,x,y) mesh of 1..8 devices',
-        text='Machine-checked proof: for every even axis size n (and n = 1) and every device, the two-way all-gather matmul accumulates sum_c lhs[c] rhs_c and the reduce-scatter matmul leaves chunk a of the full product (general induction; additionally the executable schedule is evaluated symbolically for the axis sizes 1, 2, 4, 6, 8 of the property\'s own quantifier by decide +kernel; odd sizes > 1 rejected as in the code); '
+        text='Machine-checked proof: for every even axis size n (and n = 1) and every device, the two-way all-gather matmul accumulates exactly the chunk products sum_c lhs_a[c] rhs_c and the reduce-scatter matmul leaves sum_s lhs_s[a] rhs_s on device a, each product once (general induction; additionally the executable schedule is evaluated symbolically for the axis sizes 1, 2, 4, 6, 8 of the property\'s own quantifier by decide +kernel; odd sizes > 1 rejected as in the code); '
              'parallel prefix sum = cumulative sum of the concatenation in both directions for any shard count; zero-padded bases: the padded transform restricted to the unpadded block equals the unpadded transform and padding outputs are zero; stack/unstack of m is a bijection; per-shard longitude derivative with frequency offset = restriction of the global derivative; '
              'crop o f o pad = f for level-wise f; _round_to_multiple laws; the repaired diffusion step filter is finite on padded layouts (negative witness for the pre-fix NaN). '
-             'PARTIAL (named): XLA SPMD partitioner, shard_map, collectives, with_sharding_constraint are executed by the check, not modelled.',
+             'PARTIAL (named): XLA SPMD partitioner, shard_map, collectives, with_sharding_constraint, and the subscript logic of sharded_einsum (gather-vs-scatter choice, reduce / transfer subscripts, reversed argument order) are executed by the check, not modelled; sharded implicit operators, filters and whole steps are decided by the sharded-vs-unsharded differential. Domain: odd x / y axis sizes > 1 are rejected loudly by the code.',
         note=TB + 'Runs with XLA_FLAGS=--xla_force_host_platform_device_count=8.',
         design='6/C07'),
     'C11': dict(
         technique='Lean 4 theorems (submodule invariants by induction over arbitrary histories of filtered steps) about the abstract spectral model Dino.Dynamics, the integrator model Dino.Imex and Dino.Filters; '
                   'clock-advance certificates on the tableaux regenerated from the source; model correspondence and bitwise trajectory probes on the real code',
         text='Machine-checked proof: for every state the explicit tendencies of every class lie in the structural submodule S (zero outside the mask and at the clipped top wavenumber); vorticity / divergence tendencies have zero (0,0) coefficient (dry class exactly); '
-             'implicit terms and the implicit inverse map S -> S, keep the (0,0) entries and pass vorticity, tracers and the clock through; every integrator maps S -> S and advances an observable with explicit tendency c, implicit tendency 0 by (dt*adv)*c, so the invariant holds after ANY list of steps and filters (List.foldl); '
+             'implicit terms and the implicit inverse map S -> S, keep the (0,0) entries and pass vorticity, tracers and the clock through; every integrator maps S -> S and advances an observable with explicit tendency c, implicit tendency 0 by (dt*adv)*c, so the invariant holds after ANY list of steps and of filters satisfying FilterOk (List.foldl; history-level statements for the dry and with-time classes, term-level for the moist and cloud classes, correspondence + trajectory probes for shallow water: being strengthened); '
              'adv = 1 for Euler, CN-RK2, RK3, SIL3 (certificates on the regenerated tables) and within 1e-12 of one for the 13-digit RK4 table; filters leave scalar leaves alone and fix the (0,0) entry; any linear functional that vanishes on both tendencies and is passed through by the inverse (the (0,0) means of vorticity / divergence, the shallow-water mean thickness: checked on the shallow-water model and the real class each run) is conserved by every integrator; a uniform tracer has zero tendency given the round-trip and div(uv) = delta laws.',
         note=TB + 'Moist classes: (0,0) entries of the humidity corrections are quadrature-level (1e-19), stated to rounding; laws of the horizontal operators are hypotheses validated on the real grids.',
         design='6/C11'),
@@ -203,8 +201,8 @@ CHECKS = {
                   'by induction over arbitrary histories; concrete rotation and mirror actions on the list model of both transform layouts for all sizes; the hypotheses of the abstract theorem are validated on the real Grid on every run; '
                   'differential correspondence of every model op; rotated / mirrored states vs transformed tendencies and trajectories on the real equation classes',
         text='Machine-checked proof: (T10.1) for any symmetry (linear rho on modal fields, algebra homomorphism on nodal fields, sign eps with eps^2 = 1) that commutes with every horizontal operation (sign eps on cos_lat_d_dlat, sec_lat_d_dlat_cos2, sin(lat); vorticity odd), explicit_terms, implicit_terms and implicit_inverse of the dry, with-time, moist and cloud classes '
-             'over the transformed orography, and of shallow water with any number of layers, commute with the action (an error is raised for both or neither); every integrator step (Euler pair, CN-RK2, every low-storage RK, every Butcher tableau, leapfrog, time-reversed) is intertwined, hence whole trajectories of any length with any conjugated filters (induction), including Robert-Asselin leapfrog runs. '
-             '(T10.2) for all N, M, k: the 2x2 rotation of each (cos, sin) pair by 2 pi m k / N intertwines synthesis and analysis with roll k in both layouts (with padding), and commutes with d_dlon, with every operator acting on l only and with the latitude derivatives; real cos/sin satisfy the table hypothesis for every N > 0. '
+             'over the transformed orography, and of shallow water with any number of layers, commute with the action (an error is raised for both or neither); every integrator step (Euler pair, CN-RK2, every low-storage RK, every Butcher tableau, leapfrog, time-reversed) is intertwined, hence whole trajectories of any length with any filters that are conjugated by the action (induction; that the code\'s spectral filters are conjugated follows from their being l-multipliers and is additionally tested), including Robert-Asselin leapfrog runs. '
+             '(T10.2) for all N, M, k: the 2x2 rotation of each (cos, sin) pair by 2 pi m k / N intertwines synthesis and analysis with roll k in both layouts (with padding of the axes the symmetry does not act on; padded longitude-node / latitude-node layouts of the transformed axis are excluded), and commutes with d_dlon, with every operator acting on l only and with the latitude derivatives; real cos/sin satisfy the table hypothesis for every N > 0. '
              '(T10.3) the sign (-1)^(l+m) (Legendre parity from C01) intertwines synthesis / analysis with the latitude flip for symmetric nodes and weights, the latitude derivatives anticommute with it, d_dlon and l-multipliers commute. '
              'PARTIAL (named): the abstract carriers are not instantiated with the list model inside Lean; the operation-wise commutation hypotheses are proved for the list model (T10.2/T10.3) and validated on the real Grid each run (2.6e-15); node / weight symmetry and the trig tables are validated on the arrays the code computed.',
         note=TB + 'Fast-layout d_dlon commutation is for frequency_offset = 0 (unsharded); sharded execution is C07. equiangular_with_poles excluded for dynamics (sec^2 infinite at the poles by construction).',
@@ -212,10 +210,10 @@ CHECKS = {
     'C05': dict(
         technique='Lean 4 theorems about the abstract spectral models Dino.Dynamics (four primitive-equation classes) and Dino.DynamicsSW (layered shallow water + the state factories), laws of the horizontal operators as named hypotheses validated on real grids every run; '
                   'differential correspondence of every shallow-water routine, both factories and the rest-state construction; sentinel probes on the real code incl. an independent exact polynomial-algebra oracle of the continuous sigma-coordinate equations (labelled test)',
-        text='Machine-checked proof: (T5.1) for every level set, any orography and constant T_ref, the resting state zeta = delta = T\' = 0, ln ps = -g h/(R_eff T_ref) + const has zero total tendency in the dry, with-time, moist (uniform humidity, R_eff = R(1 + (R_v/R - 1) q0)) and cloud classes; '
+        text='Machine-checked proof: (T5.1) for every level set, constant T_ref and any orography whose Laplacian carries nothing at the clipped top wavenumber (and, for the moist classes, survives the transform round trip; otherwise the total is exactly g (lap h - clip lap h), also proved), the resting state zeta = delta = T\' = 0, ln ps = -g h/(R_eff T_ref) + const has zero total tendency in the dry, with-time, moist (uniform humidity, R_eff = R(1 + (R_v/R - 1) q0)) and cloud classes; '
              '(T5.2) the code\'s interior sigma-dot padded with the boundary zeros equals sigma F(1) - F(sigma) at all n+1 boundaries and vanishes at sigma = 0 and 1; the total ln ps tendency is minus the sigma = 1 value of the same cumulative integral; thicknesses sum to one; '
-             '(T5.3) the state built by shallow_water_states.one_layer / multi_layer (any layer count, jnp.linalg.solve as a contract) has total tendency equal to an explicit residual that vanishes iff radius = 1 and 2 Omega = 1 (steady in the factory\'s own units; negative witnesses for other radius / Omega = the recorded known finding sw-factory-units); '
-             'any non-divergent zonal flow of the dry classes has every tendency zero except divergence, which equals the gradient-wind balance residual (so solid-body rotation with the balanced surface pressure is steady). '
+             '(T5.3) the state built by shallow_water_states.one_layer / multi_layer (any layer count, jnp.linalg.solve as a contract) has total tendency equal to the explicit residual (1 - r^2) X3 + (1 - 2 Omega) X2, which vanishes when radius = 1 and 2 Omega = 1 (steady in the factory\'s own units; concrete witnesses that it does not vanish for another radius / Omega = the recorded known finding sw-factory-units; multi_layer additionally assumes that the solved potentials are zonal and unclipped, validated each run); '
+             'any non-divergent zonal flow of the dry classes has every tendency zero except divergence, which equals the discrete gradient-wind balance residual (its vanishing for solid-body rotation with the analytically balanced surface pressure is a test on the real code, not a theorem). '
              'PARTIAL (named): agreement with the continuous equations on general low-degree states and the analytic gradient-wind balance U^2 + 2 Omega a U = c R T are analytic-oracle TESTS on the real code (exact polynomial algebra in (x,y,z) with the documented vertical differences, 1e-9), not theorems: the abstract operators carry no sphere calculus; the zonal-flow theorem is for the dry classes; T5.4 (refinement to an advective-form spec) not done.',
         note=TB + 'Known finding: shallow_water_states factories hard-code radius 1 and 2 Omega = 1. Observation (not a finding, see DESIGN 11.3): isothermal_rest_atmosphere(surface_height=...) uses a lapse-rate barometric formula, so its state is not the hydrostatically balanced one the property speaks of.',
         design='6/C05'),
@@ -228,7 +226,7 @@ CHECKS = {
              'the same for shallow water (eta scaled by the time factor) and for Held-Suarez friction, equilibrium temperature, relaxation and level-wise explicit terms (over the reals, exp c = pressure weight); '
              'one step of every integrator (Euler pair, CN-RK2, leapfrog, every low-storage RK and IMEX-RK tableau) commutes with the action when dt is scaled; resolvent equivariance follows from equivariance of G and two-sided resolvents (C03); trajectories and filtered steps of any history commute; '
              'the exponential and diffusion step filters are scale-invariant when dt and tau are both times; instantiated for the four primitive-equation classes on tree vectors for any scheme and any history. Negative witness: scaling g like a velocity breaks the identity. '
-             'PARTIAL (named): linearity / constant-annihilation of the horizontal operators and the constant-mode behaviour of the numerically inverted blocks are named hypotheses validated on the real code each run; T12.2 is instantiated concretely for the primitive-equation classes only (shallow water and Held-Suarez trajectories: abstract theorem + two-scale differential).',
+             'PARTIAL (named): linearity / constant-annihilation of the horizontal operators, the exact diagonal similarity between the two externally computed inverses (InvScaled: inv\' = S inv S^-1; proved for the model\'s own scaled inverse) and their constant-mode behaviour (ConstMode) are named hypotheses validated on the real code each run; T12.2 is instantiated concretely for the primitive-equation classes only (shallow water and Held-Suarez trajectories: abstract theorem + two-scale differential).',
         note=TB + 'implicit_inverse under widely different scales is compared through an a-posteriori bound computed from the matrices numpy.linalg.inv actually returned (diagonal similarity loses accuracy: measured up to 3e-10). Known finding: shallow_water.default_filters uses a tau default expressed in DEFAULT_SCALE units.',
         design='6/C12'),
     'C08': dict(
